@@ -33,7 +33,9 @@ import (
 // that is not in the cost table; 4 contract call to an address that is no contract; 6 script call
 // whose function name is a built-in name (BName: 1 payFees 2 commit_settings_changes
 // 3 blobber_block_rewards 4 generate_challenge), cost CostK; 7 script call of a fee-exempt function
-// (ExName: 1 pour 2 wait), cost CostK.
+// (ExName: 1 pour 2 wait), cost CostK; 8 real miner-contract update_settings by the contract owner
+// (SetKey: 1 reward_rate 2 share_ratio, SetVal: index into setvals): the contract rewrites its
+// GlobalNode, a node that goes through the state cache.
 type TxnSpec struct {
 	Client  int    `json:"c"`
 	Nonce   int64  `json:"n"`
@@ -44,6 +46,8 @@ type TxnSpec struct {
 	CostK   int    `json:"cost,omitempty"`
 	BName   int    `json:"bn,omitempty"`
 	ExName  int    `json:"ex,omitempty"`
+	SetKey  int    `json:"sk,omitempty"`
+	SetVal  int    `json:"sv,omitempty"`
 	DateOff int64  `json:"dt,omitempty"`
 	BadSig  bool   `json:"badsig,omitempty"`
 	ValBig  bool   `json:"valbig,omitempty"`
@@ -55,11 +59,15 @@ type Case struct {
 	Accts     []conch.Acct `json:"accts"`
 	Txns      []TxnSpec    `json:"txns"`
 	Order     []int        `json:"order"` // pool iteration order: indices into Txns (an index may repeat)
+	Owner     int          `json:"owner,omitempty"` // client that owns the miner contract (update_settings)
 }
 
+var setkeys = []string{"", "reward_rate", "share_ratio"}
+var setvals = []string{"0.5", "0.25", "1.0", "0.75"}
 var exnames = []string{"", "pour", "wait"}
 var bnames = []string{"", "payFees", "commit_settings_changes", "blobber_block_rewards", "generate_challenge"}
 
+const minerSCAddress = "6dba10422e368813802877a85039d3985d96760ed844092319743fb3a76712d9"
 const round = 10
 const minerTok = 999
 
@@ -77,6 +85,8 @@ func fname(s TxnSpec) string {
 		return bnames[s.BName]
 	case 7:
 		return exnames[s.ExName]
+	case 8:
+		return "update_settings"
 	}
 	return ""
 }
@@ -97,6 +107,10 @@ func build(s TxnSpec, now common.Timestamp) *transaction.Transaction {
 		if s.ValBig {
 			t.Value = currency.Coin(cconfig.MaxTokenSupply + 1)
 		}
+	case 8:
+		t.TransactionType = transaction.TxnTypeSmartContract
+		t.ToClientID = minerSCAddress
+		t.TransactionData = fmt.Sprintf(`{"name":"update_settings","input":{"fields":{"%s":"%s"}}}`, setkeys[s.SetKey], setvals[s.SetVal%len(setvals)])
 	case 4:
 		t.TransactionType = transaction.TxnTypeSmartContract
 		t.ToClientID = conch.ClientKey(1000 + s.To).ID // a hash that is no contract address
@@ -181,6 +195,8 @@ func errClass(err error) int {
 	return 9
 }
 
+var defaultOwner = "1746b06bb09f55ee01b33b5e2e055d6cc7a900cb57c0a3a5eaabb8a0e7745802"
+
 func scriptCosts(c Case) map[string]int {
 	m := map[string]int{}
 	for _, s := range c.Txns {
@@ -201,6 +217,11 @@ func run(c Case) (res result) {
 	conch.Setup()
 	cconfig.SmartContractConfig.Set("smart_contracts.storagesc.challenge_enabled", c.Challenge)
 	conch.SetScriptCosts(scriptCosts(c))
+	if c.Owner != 0 {
+		cconfig.SmartContractConfig.Set("smart_contracts.minersc.owner_id", conch.ClientKey(c.Owner).ID)
+	} else {
+		cconfig.SmartContractConfig.Set("smart_contracts.minersc.owner_id", defaultOwner)
+	}
 	now := common.Now()
 	res.now0 = int64(now)
 	g := conch.NewMiner(c.Cfg, c.Accts, round, now)
@@ -468,7 +489,7 @@ func coqCase(c Case, r result) string {
 		s := c.Txns[ix]
 		inf := r.infos[ix]
 		kind := s.Kind
-		if kind == 6 || kind == 7 {
+		if kind == 6 || kind == 7 || kind == 8 {
 			kind = 1
 		}
 		val := s.Value
@@ -770,6 +791,45 @@ func genExempt(r *vh.Rand) Case {
 	return c
 }
 
+// genSettings: the owner of the miner contract sends update_settings transactions (the contract
+// rewrites its cached GlobalNode) with fees enabled; some fees exceed the owner's balance, so the
+// contract part succeeds and the transaction fails afterwards and is dropped; same-nonce competitors
+// and followers then touch the same node in the same block. Ordinary calls of other clients around.
+func genSettings(r *vh.Rand) Case {
+	var c Case
+	bal := r.PickU64([]uint64{500, 1000, 5000})
+	c.Owner = 1
+	c.Cfg = conch.Cfg{MaxBlockCost: 100000, TransferCost: 10, FutureNonce: 20, MaxByteSize: 1 << 20, BatchSize: r.Range(1, 3), FeeEnabled: true}
+	base := int64(r.Intn(2))
+	c.Accts = []conch.Acct{{Client: 1, Nonce: base, Bal: bal}, {Client: 2, Nonce: 0, Bal: 1 << 40}}
+	n := r.Range(2, 5)
+	nonce := base + 1
+	for i := 0; i < n; i++ {
+		t := TxnSpec{Client: 1, Nonce: nonce, Kind: 8, SetKey: r.Range(1, 2), SetVal: r.Intn(4), DateOff: int64(r.Range(-100, 100))}
+		switch r.Intn(3) {
+		case 0:
+			t.Fee = bal + uint64(r.Range(1, 1000)) // contract succeeds, fee cannot be paid
+		default:
+			t.Fee = uint64(r.Range(100, 120))
+		}
+		if r.Chance(1, 2) {
+			nonce++ // otherwise the next one competes for the same nonce
+		}
+		c.Txns = append(c.Txns, t)
+	}
+	for i, m := 0, r.Range(0, 2); i < m; i++ {
+		c.Txns = append(c.Txns, TxnSpec{Client: 2, Nonce: int64(i + 1), Kind: 1, CostK: 5, Fee: 5})
+	}
+	if r.Bool() {
+		c.Order = r.Perm(len(c.Txns))
+	} else {
+		for i := range c.Txns {
+			c.Order = append(c.Order, i)
+		}
+	}
+	return c
+}
+
 func key(c Case) string {
 	b, _ := json.Marshal(c)
 	h := sha256.Sum256(b)
@@ -877,6 +937,14 @@ func main() {
 			cs.Order = append(cs.Order, k-1)
 		}
 		handle(cs)
+	}
+	// cached contract node rewritten by a transaction that fails after its contract part
+	handle(Case{Owner: 1, Cfg: conch.Cfg{MaxBlockCost: 100000, TransferCost: 10, FutureNonce: 20, MaxByteSize: 1 << 20, BatchSize: 2, FeeEnabled: true},
+		Accts: []conch.Acct{{Client: 1, Nonce: 1, Bal: 1000}},
+		Txns:  []TxnSpec{{Client: 1, Nonce: 2, Kind: 8, SetKey: 1, SetVal: 0, Fee: 5000}, {Client: 1, Nonce: 2, Kind: 8, SetKey: 2, SetVal: 0, Fee: 100}},
+		Order: []int{0, 1}})
+	for i := 0; i < o.N(40, 400); i++ {
+		handle(genSettings(rnd))
 	}
 	// fee-exempt contract calls against a tight budget, fees off and on
 	for _, fe := range []bool{false, true} {
